@@ -34,8 +34,8 @@ def run(tier, seed, replay):
                        "against Python's base64 module on samples in this run",
                        "text containing '=' before the end, and non-canonical trailing bits, are unjudged"]
     rd = vf.run_dir("C11")
-    asan = vf.driver("d_c11", "asan")
-    fast = vf.driver("d_c11", "ubsan-fast")
+    asan = vf.driver("d_c11", "asan", extra_flags="-pthread")
+    fast = vf.driver("d_c11", "ubsan-fast", extra_flags="-pthread")
     n = vf.NCPU
     thorough = tier == "thorough"
     distinct = 0
@@ -55,6 +55,16 @@ def run(tier, seed, replay):
         vf.need(rep, st["roundtrip"] > 0 or label.startswith("grp4"), "%s: no round trip observed" % label)
         if label in ("cls", "rand", "grp4a", "grp4"):
             vf.need(rep, st["reject_ok"] > 0, "%s: no rejection observed (positive control)" % label)
+    # cold starts: fresh processes in which 12 threads make the very first encode/decode calls at once (plain and ASan builds);
+    # each "shard" is one process
+    plain = vf.driver("d_c11", "plain", extra_flags="-pthread")
+    for label, binary, procs in (("cold-plain", plain, 256 if thorough else 64), ("cold-asan", asan, 32 if thorough else 16)):
+        for batch in range(procs // n if procs >= n else 1):
+            outs, crashes = vf.run_shards(binary, ["--mode", "cold", "--seed", seed * 1000 + batch, "--tier", tier], min(n, procs), rd, tag="%s%d" % (label, batch))
+            rep.crash_violations(crashes, prefix=label + ":")
+            st = _merge(rep, outs, label)
+            rep.count("cold_start_processes", min(n, procs))
+    vf.need(rep, rep.counters.get("cold_start_processes", 0) >= 32, "cold-start processes did not run")
     # cross-check the reference codec itself against Python on a sample (third opinion)
     import random
     rng = random.Random(seed)
